@@ -86,3 +86,29 @@ theorem gen_sign_depends_on_skeleton (sha256 : Bytes → Bytes) (T : Tables) (si
       C06GenWrap.gen_pk_sign_segwit_input sha256 T signer dec enc N t' i code amount ht ho' hc, h2]
 
 end C13Gen
+
+namespace C13Gen
+open Py Spec Model Model.Order C02Gen C01Gen GenTapSign
+
+/-- … and so does the translated `sign_taproot_input` (key path and script path): the BIP341 digest of an input does not read the
+other inputs' scriptSigs or any witness, so the Schnorr signature over it is the same for two transactions with equal skeletons -/
+theorem gen_sign_taproot_depends_on_skeleton (sha256 : Bytes → Bytes) (T : Tables) (priv pub : Bytes)
+    (t t' : Tx) (hsk : skeleton t = skeleton t') (i : Nat) (spks : List (List Spec.Tok)) (amounts : List Int) (scriptPath : Bool)
+    (leaf : List Spec.Tok) (s : Model.Scripts) (ht : Nat) (tweak : Bool)
+    (hs : ∀ s ∈ spks, ∀ b, scriptBytes T s = .ok b → b.length < 2 ^ 64)
+    (ho : ∀ o ∈ t.outputs, ∀ b, scriptBytes T o.script = .ok b → b.length < 2 ^ 64)
+    (hl : ∀ b, scriptBytes T leaf = .ok b → b.length < 2 ^ 64) (hsm : SmallScripts T s) :
+    Gen.pk_sign_taproot_input sha256 T.opCodes priv pub t.version (t.inputs.map inPy) (t.outputs.map outPy) t.locktime (i : Int)
+        (spks.map (·.map toPy)) amounts scriptPath (leaf.map toPy) (toPyScripts s) (ht : Int) tweak =
+      Gen.pk_sign_taproot_input sha256 T.opCodes priv pub t'.version (t'.inputs.map inPy) (t'.outputs.map outPy) t'.locktime (i : Int)
+        (spks.map (·.map toPy)) amounts scriptPath (leaf.map toPy) (toPyScripts s) (ht : Int) tweak := by
+  have hout : t'.outputs = t.outputs := by
+    have := congrArg (fun x => x.2.2.1) hsk; exact this.symm
+  have ho' : ∀ o ∈ t'.outputs, ∀ b, scriptBytes T o.script = .ok b → b.length < 2 ^ 64 := by rw [hout]; exact ho
+  rw [C06GenWrap.gen_pk_sign_taproot_input sha256 T priv pub t i spks amounts scriptPath leaf s ht tweak hs ho hl hsm,
+    C06GenWrap.gen_pk_sign_taproot_input sha256 T priv pub t' i spks amounts scriptPath leaf s ht tweak hs ho' hl hsm]
+  obtain ⟨_, _, h1⟩ := C13.digests_depend_on_skeleton sha256 T t t' hsk i [] ht 0 spks amounts 1 leaf
+  obtain ⟨_, _, h0⟩ := C13.digests_depend_on_skeleton sha256 T t t' hsk i [] ht 0 spks amounts 0 []
+  rw [h1, h0]
+
+end C13Gen
